@@ -238,6 +238,27 @@ def run(tier):
         # a grouped record nested in a grouped record
         inner_g = lambda gen2: GroupedRecord("g/in", [mk("x", 1), I2("x", "g1", _generated=gen2)])
         add(GroupedRecord("g/out", [inner_g(gen.GEN), mk("z", 3)]), GroupedRecord("g/out", [inner_g(G2), mk("z", 3)]), ign, {"pair": "grouped-in-grouped-vary-generated", "ign": sorted(ign)})
+    # a record that was already packed / hashed / compared, whose typed LIST field is then changed IN PLACE: equality and
+    # hash follow the current contents
+    for T, v1, v2 in (("string", "a", "b"), ("varint", 1, 2), ("path", "/a", "/b"), ("uint16", 1, 2)):
+        DL = RecordDescriptor("t/mutlist_" + gen.typename_slug(T), [(T + "[]", "f"), ("string", "g")])
+        for how in ("append", "setitem", "del", "clear"):
+            a = DL([v1, v1], "x", _generated=gen.GEN, _source="s")
+            old = DL([v1, v1], "x", _generated=gen.GEN, _source="s")
+            hash(a), a == old, a._pack(), hash(GroupedRecord("g/m", [a]))
+            elem = a.f[0].__class__(v2)          # of the element type: a raw value appended to the list is not converted (unspecified pair)
+            if how == "append":
+                a.f.append(elem); now = [v1, v1, v2]
+            elif how == "setitem":
+                a.f[0] = elem; now = [v2, v1]
+            elif how == "del":
+                del a.f[0]; now = [v1]
+            else:
+                a.f.clear(); now = []
+            new = DL(list(now), "x", _generated=gen.GEN, _source="s")
+            add(a, new, set(), {"pair": "list-changed-in-place-vs-rebuilt", "type": T + "[]", "how": how})
+            add(a, old, set(), {"pair": "list-changed-in-place-vs-old", "type": T + "[]", "how": how})
+            add(GroupedRecord("g/m", [a]), GroupedRecord("g/m", [new]), set(), {"pair": "grouped-list-changed-in-place", "type": T + "[]", "how": how})
     # the configuration taken from the environment variable FLOW_RECORD_IGNORE by fresh interpreters
     for envval in ("", "g", "g,_generated", "_generated", "f,g,n"):
         for c in common.in_fresh_process("c12", "env_cases", envval, {"FLOW_RECORD_IGNORE": envval}):
@@ -258,23 +279,34 @@ def run(tier):
         plans.append((ctx.rnd.choice(sets), None))
     for init, planned in plans:
         setter(init)
-        ops, cms = [], []
+        ops, cms, prepared = [], [], []
         steps = planned if planned is not None else [None] * ctx.rnd.randint(1, 8)
         for step in steps:
             if step is not None:
                 kind, arg = step
             else:
-                kind = ctx.rnd.choice(["set", "enter", "enter", "exit_ok", "exit_err", "exit_base"])
+                kind = ctx.rnd.choice(["set", "enter", "enter", "exit_ok", "exit_err", "exit_base", "prepare", "enter_prepared"])
                 arg = ctx.rnd.choice(sets)
             if kind in ("exit_ok", "exit_err", "exit_base") and not cms:
                 kind = "enter"
+            if kind == "enter_prepared" and not prepared:
+                kind = "prepare"
             # the configuration is handed over in different shapes of "iterable of names": a list, a set, a tuple, and
             # one-shot iterables (an iterator, a generator expression, a map object)
             shape = ctx.rnd.choice(["list", "set", "tuple", "iter", "gen", "map"])
             given = {"list": lambda a: list(a), "set": lambda a: set(a), "tuple": lambda a: tuple(a), "iter": lambda a: iter(list(a)),
                      "gen": lambda a: (x for x in list(a)), "map": lambda a: map(str, list(a))}[shape](arg)
             try:
-                if kind == "set":
+                if kind == "prepare":
+                    # the scope object is CREATED now and entered later (a prepared context, a decorator): what it restores
+                    # on exit is the configuration in force when it is entered
+                    prepared.append((ignore_fields_for_comparison(given), list(arg)))
+                elif kind == "enter_prepared":
+                    cm, arg = prepared.pop(0)
+                    cm.__enter__()
+                    cms.append(cm)
+                    kind = "enter"
+                elif kind == "set":
                     setter(given)
                 elif kind == "enter":
                     cm = ignore_fields_for_comparison(given)
@@ -300,7 +332,8 @@ def run(tier):
                             raise
             except Exception:
                 pass
-            ops.append({"op": kind, "arg": arg, "after": sorted(base.IGNORE_FIELDS_FOR_COMPARISON)})
+            if kind != "prepare":
+                ops.append({"op": kind, "arg": arg, "after": sorted(base.IGNORE_FIELDS_FOR_COMPARISON)})
         while cms:
             cms.pop().__exit__(None, None, None)
         setter(set())
